@@ -303,14 +303,24 @@ pub fn a5_normalise(b: &mut syn::Block, cx: &mut Ctx) -> bool {
     match e {
         Expr::Async(a) => { let nb = a.block.clone(); *b = nb; true }
         Expr::Call(_) => { let call = e.clone(); let st: Stmt = Stmt::Expr(parse_quote!(#call.await), None); b.stmts = vec![st]; true }
-        Expr::MethodCall(m) if m.method == "map" && m.args.len() == 1 => {
-            if let (Expr::Call(_), Expr::Closure(cl)) = (&*m.receiver, &m.args[0]) {
-                if cl.inputs.len() != 1 { return false; }
-                let recv = &m.receiver; let pat = &cl.inputs[0]; let body = &cl.body;
-                let pat: syn::Pat = match pat { syn::Pat::Wild(_) => parse_quote!(_hx_ignored), p => p.clone() };
-                let nb: syn::Block = parse_quote!({ let #pat = #recv.await; #body });
-                *b = nb; let _ = cx; true
-            } else { false }
+        Expr::MethodCall(m) if (m.method == "map" || m.method == "then") && m.args.len() == 1 => {
+            // a chain of FutureExt::map / FutureExt::then over an eager call: `f().then(|p| g()).map(|q| e)` runs f, then g, then yields e
+            fn chain(e: &Expr) -> Option<(Vec<Stmt>, Expr)> {
+                match e {
+                    Expr::Call(_) => Some((vec![], parse_quote!(#e.await))),
+                    Expr::MethodCall(m) if (m.method == "map" || m.method == "then") && m.args.len() == 1 => {
+                        let Expr::Closure(cl) = &m.args[0] else { return None; };
+                        if cl.inputs.len() != 1 { return None; }
+                        let (mut st, v) = chain(&m.receiver)?;
+                        let pat: syn::Pat = match &cl.inputs[0] { syn::Pat::Wild(_) => parse_quote!(_hx_ignored), p => p.clone() };
+                        st.push(parse_quote!(let #pat = #v;));
+                        let body = &cl.body;
+                        if m.method == "then" { if !matches!(&**body, Expr::Call(_) | Expr::MethodCall(_)) { return None; } Some((st, parse_quote!(#body.await))) } else { Some((st, (**body).clone())) }
+                    }
+                    _ => None,
+                }
+            }
+            match chain(e) { Some((st, v)) => { let nb: syn::Block = parse_quote!({ #(#st)* #v }); *b = nb; let _ = cx; true } None => false }
         }
         _ => false,
     }
@@ -597,7 +607,13 @@ impl<'c> VisitMut for Rw<'c> {
                         Expr::MethodCall(m) if m.method == "downgrade" && m.args.is_empty() => match &*m.receiver { Expr::Path(p) => p.path.get_ident().map(|i| i.to_string()), _ => None },
                         Expr::Call(c) if c.args.len() == 1 && nospace(&c.func.to_token_stream().to_string()).ends_with("Arc::downgrade") => match &c.args[0] { Expr::Reference(r) => match &*r.expr { Expr::Path(p) => p.path.get_ident().map(|i| i.to_string()), _ => None }, _ => None },
                         _ => None };
-                    if let Some(sn) = dsrc { if let Some(t) = self.local_types.get(&sn).cloned() { self.local_types.insert(pi.ident.to_string(), format!("?Weak<{}>", t.trim_start_matches('?'))); } }
+                    if let Some(sn) = dsrc { if let Some(t) = self.local_types.get(&sn).cloned() {
+                        let marker = format!("?Weak<{}>", t.trim_start_matches('?'));
+                        // `lettype ?Weak<T<$1>> => W<$1>`: the unit has a stand-in for the weak handle of that type
+                        let mk = nospace(&marker); let mut concrete: Option<String> = None;
+                        for (pth, tys) in self.cx.unit.lettypes.iter() { if pth.starts_with("?Weak<") && tys.len() == 1 { if let Some((pre, suf)) = pth.split_once("$1") { if mk.len() >= pre.len() + suf.len() && mk.starts_with(pre) && mk.ends_with(suf) { concrete = Some(tys[0].replace("$1", &mk[pre.len()..mk.len() - suf.len()])); } } } }
+                        self.local_types.insert(pi.ident.to_string(), concrete.unwrap_or(marker));
+                    } }
                     // `lettype path => W<$arg>`: `let x = path(y)` / `path(y.clone())` with y of known type T gives x the type W<T>
                     if let Expr::Call(c) = &*init.expr { if c.args.len() == 1 {
                         let key = nospace(&c.func.to_token_stream().to_string());
@@ -909,7 +925,12 @@ impl<'c> VisitMut for Rw<'c> {
             if let Expr::MethodCall(m) = e { let mn = m.method.to_string(); for (a, b) in self.cx.unit.methods.clone() { if a == mn { m.method = syn::Ident::new(&b, m.method.span()); } } }
         }
         // A2: await on a future value
-        if let Expr::Await(a) = e { let base = &a.base; self.cx.fire("A2"); *e = parse_quote!(#base.await_(Tracked(w))); }
+        if let Expr::Await(a) = e {
+            let base = &a.base; self.cx.fire("A2");
+            // `x.await` consumes x: the binding need not be `mut` in the source even where the model's `await_` takes `&mut self` (rule A6)
+            let plain = matches!(&**base, Expr::Path(p) if p.path.get_ident().map(|i| i != "self").unwrap_or(false));
+            if plain { *e = parse_quote!({ let mut hx_aw = #base; hx_aw.await_(Tracked(w)) }); } else { *e = parse_quote!(#base.await_(Tracked(w))); }
+        }
         // closures and async blocks that survive to this point are outside the dialect unless a later rule lifts them
 
     }
